@@ -56,28 +56,32 @@ Section End.
   Variable LF lvl : nat.
   Notation crun := (exec geom LF lvl).
 
+  Variable inner : bool.
+
   Definition loop_handler f last (r : result val) : M (option exn) :=
     match r with
     | Err XFuel => throw XFuel
-    | Err (XInvalid m) => _ <- (if internal_msg m then mark_dirty else ret tt) ;; _ <- note_skip m ;; cleanup_loop crun f last
-    | Err e => cleanup_loop crun f (Some e)
-    | Ok _ => cleanup_loop crun f last
+    | Err (XInvalid m) =>
+        if inner && internal_msg m then _ <- mark_dirty ;; cleanup_loop crun inner f (Some (XInvalid m))
+        else _ <- (if internal_msg m then mark_dirty else ret tt) ;; _ <- note_skip m ;; cleanup_loop crun inner f last
+    | Err e => cleanup_loop crun inner f (Some e)
+    | Ok _ => cleanup_loop crun inner f last
     end.
   Lemma bind_ok_shape A B (m : M A) (f : A -> M B) s a :
     res (m s) = Ok a -> res (bind m f s) = res (f a (post (m s))) /\ post (bind m f s) = post (f a (post (m s))).
   Proof. intros H. unfold bind. rewrite H. split; reflexivity. Qed.
   Lemma cl_none f last s : cleanups (ts s) = [] ->
-    res (cleanup_loop crun (S f) last s) = Ok last /\ post (cleanup_loop crun (S f) last s) = s.
+    res (cleanup_loop crun inner (S f) last s) = Ok last /\ post (cleanup_loop crun inner (S f) last s) = s.
   Proof. intros H. cbn [cleanup_loop]. unfold bind, pop_cleanup. rewrite H. split; reflexivity. Qed.
   Lemma cl_some f last s id c rest : cleanups (ts s) = (id, c) :: rest -> cleaning (ts s) = true ->
     let s1 := with_ts s (mkT (failed (ts s)) rest (ctx (ts s)) true (skipreq (ts s))) in
-    res (cleanup_loop crun (S f) last s) = res (loop_handler f last (res (crun c s1)) (post (crun c s1))) /\
-    post (cleanup_loop crun (S f) last s) = post (loop_handler f last (res (crun c s1)) (post (crun c s1))).
+    res (cleanup_loop crun inner (S f) last s) = res (loop_handler f last (res (crun c s1)) (post (crun c s1))) /\
+    post (cleanup_loop crun inner (S f) last s) = post (loop_handler f last (res (crun c s1)) (post (crun c s1))).
   Proof.
     intros H Hc s1.
     assert (Ep : pop_cleanup s = mkOut (Ok (Some c)) s1 (wev [URun id] false false)).
     { unfold pop_cleanup. rewrite H, Hc. reflexivity. }
-    assert (EL : cleanup_loop crun (S f) last s =
+    assert (EL : cleanup_loop crun inner (S f) last s =
                  (let o := try_ (crun c) (loop_handler f last) s1 in mkOut (res o) (post o) (wapp (wev [URun id] false false) (w o)))).
     { cbn [cleanup_loop]. unfold bind at 1. rewrite Ep. reflexivity. }
     rewrite EL. cbv zeta. unfold try_. cbn [res post]. split; reflexivity.
@@ -85,8 +89,8 @@ Section End.
 
   Lemma cleanup_loop_end : forall fuel last s r,
     cleaning (ts s) = true -> ctx (ts s) = false ->
-    res (cleanup_loop crun fuel last s) = Ok r ->
-    let t := ts (post (cleanup_loop crun fuel last s)) in
+    res (cleanup_loop crun inner fuel last s) = Ok r ->
+    let t := ts (post (cleanup_loop crun inner fuel last s)) in
     cleanups t = [] /\ cleaning t = true /\ ctx t = false.
   Proof.
     induction fuel as [|f IH]; intros last s r Hc Hx; [cbn; discriminate|].
@@ -100,14 +104,18 @@ Section End.
       unfold loop_handler. destruct (res (crun c s1)) as [v|e].
       + intros H. apply (IH last (post (crun c s1)) r Hc1 Hx1 H).
       + destruct e as [m|m s0|m s0|]; try (cbn; discriminate).
-        * (* a skipping cleanup function: the request is noted, which keeps the rest of the T *)
+        * destruct (inner && internal_msg m).
+          { (* a cleanup function of a Custom's inner T that ran out of data: its exception is kept *)
+            destruct (bind_ok_shape _ _ mark_dirty (fun _ => cleanup_loop crun inner f (Some (XInvalid m))) (post (crun c s1)) tt eq_refl) as [A B].
+            rewrite A, B. clear A B. intros H. apply (IH _ (post (crun c s1)) r Hc1 Hx1 H). }
+          (* a skipping cleanup function: the request is noted, which keeps the rest of the T *)
           set (mk := if internal_msg m then mark_dirty else ret tt).
           assert (Hmk : res (mk (post (crun c s1))) = Ok tt /\ post (mk (post (crun c s1))) = post (crun c s1))
             by (unfold mk; destruct (internal_msg m); split; reflexivity).
           destruct Hmk as [M1 M2].
-          destruct (bind_ok_shape _ _ mk (fun _ => _ <- note_skip m ;; cleanup_loop crun f last) (post (crun c s1)) tt M1) as [A B].
+          destruct (bind_ok_shape _ _ mk (fun _ => _ <- note_skip m ;; cleanup_loop crun inner f last) (post (crun c s1)) tt M1) as [A B].
           rewrite A, B, M2. clear A B.
-          destruct (bind_ok_shape _ _ (note_skip m) (fun _ => cleanup_loop crun f last) (post (crun c s1)) tt eq_refl) as [A B].
+          destruct (bind_ok_shape _ _ (note_skip m) (fun _ => cleanup_loop crun inner f last) (post (crun c s1)) tt eq_refl) as [A B].
           rewrite A, B. clear A B.
           intros H. apply (IH _ (post (note_skip m (post (crun c s1)))) r); [exact Hc1|exact Hx1|exact H].
         * intros H. apply (IH _ (post (crun c s1)) r Hc1 Hx1 H).
@@ -119,22 +127,22 @@ Section End.
   Proof. intros H. unfold bind. rewrite H. reflexivity. Qed.
 
   Theorem cleanup_end s r :
-    res (cleanup LF crun s) = Ok r ->
-    ts (post (cleanup LF crun s))
-    = mkT (failed (ts (post (cleanup LF crun s)))) [] false false (skipreq (ts (post (cleanup LF crun s)))).
+    res (cleanup LF crun inner s) = Ok r ->
+    ts (post (cleanup LF crun inner s))
+    = mkT (failed (ts (post (cleanup LF crun inner s)))) [] false false (skipreq (ts (post (cleanup LF crun inner s)))).
   Proof.
     unfold cleanup.
-    destruct (bind_ok_shape _ _ begin_cleanup (fun _ => r0 <- cleanup_loop crun LF None ;; _ <- end_cleanup ;; ret r0) s tt eq_refl) as [E1 E2].
+    destruct (bind_ok_shape _ _ begin_cleanup (fun _ => r0 <- cleanup_loop crun inner LF None ;; _ <- end_cleanup ;; ret r0) s tt eq_refl) as [E1 E2].
     rewrite E1, E2. clear E1 E2.
     set (s1 := post (begin_cleanup s)).
     assert (Hc1 : cleaning (ts s1) = true) by reflexivity.
     assert (Hx1 : ctx (ts s1) = false) by reflexivity.
-    destruct (res (cleanup_loop crun LF None s1)) as [r0|e] eqn:El.
-    - destruct (bind_ok_shape _ _ (cleanup_loop crun LF None) (fun r0 => _ <- end_cleanup ;; ret r0) s1 r0 El) as [F1 F2].
+    destruct (res (cleanup_loop crun inner LF None s1)) as [r0|e] eqn:El.
+    - destruct (bind_ok_shape _ _ (cleanup_loop crun inner LF None) (fun r0 => _ <- end_cleanup ;; ret r0) s1 r0 El) as [F1 F2].
       rewrite F1, F2. clear F1 F2.
       destruct (cleanup_loop_end LF None s1 r0 Hc1 Hx1 El) as [A [B C]].
       intros _. unfold bind. cbn [end_cleanup ret res post ts with_ts failed skipreq]. rewrite A, C. reflexivity.
-    - rewrite (bind_err_shape _ _ (cleanup_loop crun LF None) (fun r0 => _ <- end_cleanup ;; ret r0) s1 e El). discriminate.
+    - rewrite (bind_err_shape _ _ (cleanup_loop crun inner LF None) (fun r0 => _ <- end_cleanup ;; ret r0) s1 e El). discriminate.
   Qed.
 End End.
 
@@ -157,19 +165,19 @@ Section CheckOnceEnd.
 
   Lemma handler_body_end (mark : M unit) (tail : option exn -> M unit) s1 :
     (res (mark s1) = Ok tt /\ post (mark s1) = s1) -> (forall c s0, post (tail c s0) = s0) ->
-    res ((_ <- mark ;; c <- cleanup LF (exec geom LF lvl) ;; tail c) s1) <> Err XFuel ->
-    let t := ts (post ((_ <- mark ;; c <- cleanup LF (exec geom LF lvl) ;; tail c) s1)) in
+    res ((_ <- mark ;; c <- cleanup LF (exec geom LF lvl) false ;; tail c) s1) <> Err XFuel ->
+    let t := ts (post ((_ <- mark ;; c <- cleanup LF (exec geom LF lvl) false ;; tail c) s1)) in
     cleanups t = [] /\ ctx t = false /\ cleaning t = false.
   Proof.
     intros [M1 M2] Htail.
-    destruct (bind_ok_shape _ _ mark (fun _ => c <- cleanup LF (exec geom LF lvl) ;; tail c) s1 tt M1) as [E1 E2].
+    destruct (bind_ok_shape _ _ mark (fun _ => c <- cleanup LF (exec geom LF lvl) false ;; tail c) s1 tt M1) as [E1 E2].
     rewrite E1, E2, M2. clear E1 E2.
-    destruct (res (cleanup LF (exec geom LF lvl) s1)) as [c|e] eqn:Ec.
-    - destruct (bind_ok_shape _ _ (cleanup LF (exec geom LF lvl)) (fun c0 => tail c0) s1 c Ec) as [F1 F2].
+    destruct (res (cleanup LF (exec geom LF lvl) false s1)) as [c|e] eqn:Ec.
+    - destruct (bind_ok_shape _ _ (cleanup LF (exec geom LF lvl) false) (fun c0 => tail c0) s1 c Ec) as [F1 F2].
       rewrite F1, F2, Htail. intros _. cbv zeta.
-      rewrite (cleanup_end geom LF lvl s1 c Ec). cbn. auto.
-    - rewrite (bind_err_shape _ _ (cleanup LF (exec geom LF lvl)) (fun c0 => tail c0) s1 e Ec).
-      pose proof (Rapid.Proofs.Replay.cleanup_err LF (exec geom LF lvl) s1 e Ec) as ->. congruence.
+      rewrite (cleanup_end geom LF lvl false s1 c Ec). cbn. auto.
+    - rewrite (bind_err_shape _ _ (cleanup LF (exec geom LF lvl) false) (fun c0 => tail c0) s1 e Ec).
+      pose proof (Rapid.Proofs.Replay.cleanup_err LF (exec geom LF lvl) false s1 e Ec) as ->. congruence.
   Qed.
 
   Theorem checkOnce_ends_empty p s :
